@@ -65,6 +65,65 @@ func c20(r *core.Run) {
 		}
 		c20Ctor(r, fn, call)
 	}
+	c20Kernel(r)
+}
+
+// c20Kernel: the location is resolved the way the kernel will resolve the spelling when the database is opened:
+// symbolic links are followed BEFORE ".." is applied. The spelling handed to EvalSymlinks must therefore not have
+// gone through a lexically cleaning function (filepath.Abs, Clean, Join, Dir, Base) — for `link/../db` with
+// link → /etc/ssl cleaning yields `./db`, the kernel opens /etc/db.
+func c20Kernel(r *core.Run) {
+	p := r.P
+	n := 0
+	cleaning := map[string]bool{"path/filepath.Abs": true, "path/filepath.Clean": true, "path/filepath.Join": true, "path/filepath.Dir": true, "path/filepath.Base": true, "path/filepath.Rel": true, "path.Clean": true, "path.Join": true}
+	for _, fn := range p.FuncsIn(storeRel) {
+		core.InstrsOf(fn, func(in ssa.Instruction) {
+			c, ok := in.(*ssa.Call)
+			if !ok || core.CalleeName(&c.Call) != "path/filepath.EvalSymlinks" {
+				return
+			}
+			n++
+			bad := ""
+			seen := map[ssa.Value]bool{}
+			var walk func(v ssa.Value, d int)
+			walk = func(v ssa.Value, d int) {
+				if v == nil || seen[v] || d > 14 || bad != "" {
+					return
+				}
+				seen[v] = true
+				switch x := v.(type) {
+				case *ssa.Call:
+					name := core.CalleeName(&x.Call)
+					if cleaning[name] {
+						bad = name
+						return
+					}
+					if strings.HasPrefix(name, "strings.") && len(x.Call.Args) > 0 {
+						walk(x.Call.Args[0], d+1)
+					}
+					return
+				case *ssa.Extract:
+					walk(x.Tuple, d+1)
+					return
+				case *ssa.Phi:
+					for _, e := range x.Edges {
+						walk(e, d+1)
+					}
+					return
+				case *ssa.Slice:
+					walk(x.X, d+1)
+					return
+				case *ssa.BinOp:
+					walk(x.X, d+1)
+					walk(x.Y, d+1)
+					return
+				}
+			}
+			walk(c.Call.Args[0], 0)
+			r.Check(bad == "", "C20.KERNEL", core.FuncName(fn)+"#resolves-before-cleaning", in.Pos(), "the spelling handed to EvalSymlinks has not been cleaned lexically", "the spelling handed to EvalSymlinks went through "+bad+", which removes `..` lexically: for `link/../db` with link → a protected directory's child the guard vets `./db` while the kernel opens the database inside the protected directory")
+		})
+	}
+	r.Floor("C20.KERNEL", "symlink resolutions of the database path", n, 1)
 }
 
 // hasProtectedListTest: fn tests something against the elements of a constant list of strings (in a loop, or through
@@ -252,18 +311,49 @@ func (c *c20ctx) absOf(v ssa.Value, d int) string {
 	}
 	switch x := v.(type) {
 	case *ssa.Phi:
-		for _, e := range x.Edges {
+		for i, e := range x.Edges {
 			if e == ssa.Value(x) {
 				continue
+			}
+			// the raw spelling is absolute on the edge that filepath.IsAbs(spelling) guards
+			if _, isParam := e.(*ssa.Parameter); isParam && i < len(x.Block().Preds) {
+				pred := func(v ssa.Value) bool {
+					call, ok := callTo(v, "path/filepath.IsAbs")
+					return ok && call.Call.Args[0] == e
+				}
+				ok, n, _ := core.MustPassUse(x.Parent(), core.Use{At: x.Block(), Via: x.Block().Preds[i]}, core.BoolGuard(pred, true))
+				if ok && n > 0 {
+					continue
+				}
 			}
 			if why := c.absPhiEdge(x, e, d+1); why != "" {
 				return why
 			}
 		}
 		return ""
+	case *ssa.Const:
+		if sv, ok := core.ConstString(x); ok && strings.HasPrefix(sv, "/") {
+			return ""
+		}
+		return "constant " + core.Canon(v) + " is not an absolute path"
+	case *ssa.BinOp:
+		// string concatenation: absolute if it starts with an absolute path (the working directory)
+		if x.Op == token.ADD {
+			return c.absOf(x.X, d+1)
+		}
+		return "value " + core.Canon(v) + " is not Abs-derived"
+	case *ssa.Slice:
+		// a prefix cut at a separator (the empty prefix is replaced by "/" where this is used)
+		if x.Low == nil {
+			return c.absOf(x.X, d+1)
+		}
+		return "value " + core.Canon(v) + " is not a prefix of an absolute path"
 	case *ssa.Extract:
 		if call, ok := callTo(x.Tuple, "path/filepath.Abs"); ok && x.Index == 0 {
 			_ = call
+			return ""
+		}
+		if _, ok := callTo(x.Tuple, "os.Getwd"); ok && x.Index == 0 {
 			return ""
 		}
 		if call, ok := callTo(x.Tuple, "path/filepath.EvalSymlinks"); ok && x.Index == 0 {
@@ -272,7 +362,7 @@ func (c *c20ctx) absOf(v ssa.Value, d int) string {
 		return "value " + core.Canon(v) + " is not the result of filepath.Abs"
 	case *ssa.Call:
 		switch core.CalleeName(&x.Call) {
-		case "path/filepath.Dir", "path/filepath.Clean":
+		case "path/filepath.Dir", "path/filepath.Clean", "strings.TrimRight", "strings.TrimSuffix":
 			return c.absOf(x.Call.Args[0], d+1)
 		case "path/filepath.Join":
 			elems, ok := varargElems(x.Call.Args[0])
